@@ -84,8 +84,13 @@ extern "C" void h_tap_description(void) {
     __CPROVER_havoc_object(&script); __CPROVER_assume(script.n <= VERIF_SCRIPT_CAP);
     g_hcalls = 0;
     TaprootCommitmentEnv env(control, program, script, &leaf);
+    g_hex_calls = 0;
     verif_strvec lines = env.Description();
     // the check takes m steps for the m path nodes plus one final step for the tweak check
     __CPROVER_assert(lines.size() == m + 1, "spec: the commitment listing has exactly one line per step of the commitment check (path length + 1)");
+    // line i shows the node that step i hashes: bytes 33+32i .. 33+32i+31 of the control block
+    bool nodes = (size_t)g_hex_calls == m;
+    for (size_t i = 0; i < H_TAP_MAXPATH; ++i) if (i < m && i < VERIF_HEXLOG_CAP && !(g_hex_ptr[i] == env.m_control.data() + 33 + 32 * i && g_hex_len[i] == 32)) nodes = false;
+    __CPROVER_assert(nodes, "spec: the i-th listed branch is the i-th path node of the control block (the 32 bytes at offset 33 + 32 i), the value the i-th step hashes");
     __CPROVER_assert(m != 1, "canary: one-node path reachable");
 }
